@@ -395,7 +395,10 @@ def _check_ifaces(case):
            'class IRight(IRoot):\n' + body('IRight') +
            'class IBoth(ILeft, IRight):\n' + body('IBoth') +
            '@implementer(IBoth)\nclass Impl:\n    def meth(self):\n        pass\n'
-           'class Sub(Impl):\n    def meth(self):\n        pass\n')
+           'class Sub(Impl):\n    def meth(self):\n        pass\n'
+           # a class that inherits a documented definition from an ordinary base class: that one comes first (it is on the MRO)
+           'class Documented:\n    def meth(self):\n        "doc from Documented"\n'
+           '@implementer(IBoth)\nclass Impl2(Documented):\n    def meth(self):\n        pass\n')
     system = fixtures.build_system([('zi', src, False)])
     want = next((n for n in names if decl[n]), None)
     fails = []
@@ -406,6 +409,10 @@ def _check_ifaces(case):
         if got != want:
             fails.append({'observed': f'{cls}.meth takes its docstring from {got} (declared by {[n for n in names if decl[n]]})', 'required': f'{want}: the first interface along IBoth, ILeft, IRight, IRoot',
                           'class': 'interface-docsource'})
+    doc2, _src2 = model.get_docstring(system.allobjects['zi.Impl2.meth'])
+    if doc2 != 'doc from Documented':
+        fails.append({'observed': f'zi.Impl2.meth takes its docstring {doc2!r}', 'required': "'doc from Documented': the base class on the linearisation comes before the interfaces",
+                      'class': 'interface-before-base'})
     return fails or None
 
 
@@ -440,6 +447,16 @@ class Later(Outer.B):
     pass
 class Plain(A):
     pass
+class DA:
+    def m(self): "DA.m"
+    class Inner: pass
+class DB(DA):
+    pass
+class DC(DA):
+    def m(self): "DC.m"
+    class Inner: pass
+class DD(DB, DC):
+    """See L{DD.m} and L{DD.Inner}."""
 '''
 
 
@@ -457,7 +474,7 @@ def _check_nested(case):
     exec(NESTED_SRC, ns)
     system = fixtures.build_system([('nm', NESTED_SRC, False)])
     fails = []
-    for qual in ('Outer.B', 'Outer.H', 'Outer.Deep.C', 'Later', 'Plain'):
+    for qual in ('Outer.B', 'Outer.H', 'Outer.Deep.C', 'Later', 'Plain', 'DD', 'DB'):
         pycls = ns[qual.split('.')[0]]
         for part in qual.split('.')[1:]:
             pycls = getattr(pycls, part)
@@ -467,8 +484,12 @@ def _check_nested(case):
         if got != want:
             fails.append({'observed': f'nm.{qual}: linearisation {got}', 'required': f'{want} (type().__mro__)', 'class': 'nested-mro'})
             continue
-        for member in ('m', 'g', 'only_a'):
+        for member in ('m', 'g', 'only_a', 'Inner'):
             pym = getattr(pycls, member, None)
+            # ... and the same lookup written as a dotted name in the module
+            dotted = system.allobjects['nm'].resolveName(f'{qual}.{member}')
+            if (pym is None) != (dotted is None) or (pym is not None and 'nm.' + pym.__qualname__ != dotted.fullName()):
+                fails.append({'observed': f"nm.resolveName('{qual}.{member}') -> {dotted and dotted.fullName()}", 'required': f'{pym and pym.__qualname__}', 'class': 'nested-dotted'})
             found = o.find(member)
             if (pym is None) != (found is None) or (pym is not None and 'nm.' + pym.__qualname__ != found.fullName()):
                 fails.append({'observed': f'nm.{qual}.find({member!r}) -> {found and found.fullName()}', 'required': f'{pym and pym.__qualname__}', 'class': 'nested-find'})
